@@ -168,6 +168,12 @@ def c01(tier, rep):
     frs = e2.run_family("c01spawn", sp)
     judge_family(rep, frs)
     rep.set("spawn_chain_programs", len(sp))
+    # operators whose operands are blocks that depend on evaluation order: the capture-dense chain family (shared with C11)
+    from . import fam_captures
+
+    cp, _ = fam_captures.chain_programs(tier)
+    frc = e2.run_family("c11chains", cp)
+    judge_family(rep, frc)
     rep.set("states", len(stats["kinds"]))
     rep.set("transitions", len(stats["rows"]))
     rep.set("operator_pairs", len(stats["pairs"]))
@@ -656,7 +662,7 @@ def c11(tier, rep):
 
 @check("C12", "exploration")
 def c12(tier, rep):
-    from . import fam_profiles as fp
+    from . import dsl, fam_profiles as fp
     import itertools
 
     progs = []
@@ -679,10 +685,50 @@ def c12(tier, rep):
                     lets = [(b, (b + len(sub)) % 2 == 1) for b in sub]
                     p = fp.build(mac, ds, flavour=fl if mac.startswith("try") else None, lets=lets, readers=readers)
                     progs.append(fp.to_prog("%s/%s/%s/%s" % (mac, fl, fp.pname(ds), "".join(map(str, sub))), p, fp.offset_rows()))
+                    if fl == "Res" and mac in ("try_join", "try_join_spawn") and len(sub) == n and max(ds) >= 3:
+                        p = fp.build(mac, ds, flavour="Res", lets=lets, readers=readers, err_after=True)
+                        progs.append(fp.to_prog("%s/%s/%s/%s/err" % (mac, fl, fp.pname(ds), "".join(map(str, sub))), p, fp.offset_rows()))
+    # the name reaches the macro through a macro_rules! template (its hygiene context differs from the template's): captures
+    # written with that name must still see the generated binding, not a same-named outer variable
+    for mac, w, op in (("join", "%s", "~->"), ("try_join", "Some(%s)", "~|>"), ("join_spawn", "%s", "~->"), ("try_join_async", "ready(Ok::<i32, i32>(%s))", "~=>")):
+        is_async = "async" in mac
+        stepv = (lambda e: "ready(Ok::<i32, i32>(%s))" % e) if is_async else (lambda e: e)
+        rd = "__N.clone()" if not mac.startswith("try") else ("__N.clone().unwrap()" if not is_async else "__N.clone().unwrap()")
+        tpl = "macro_rules! via { ($n:ident) => { %s! { let $n = %s %s |v: i32| %s, %s %s { let s = %s; move |v: i32| %s } } } }" % (
+            mac, w % 'lg("0.0.i", 1)', op, stepv("v + 1"), w % "2", op, rd.replace("__N", "$n"), stepv("v + s"))
+        ref = dsl.program_ref(dsl.Program(mac, [
+            dsl.Branch(dsl.O(w % 'lg("0.0.i", 1)'), [dsl.Op(op[1:], [dsl.O("|v: i32| %s" % stepv("v + 1"))], deferred=True)], let=("nm", False)),
+            dsl.Branch(dsl.O(w % "2"), [dsl.Op(op[1:], [dsl.B("let s = %s; move |v: i32| %s" % (rd.replace("__N", "nm"), stepv("v + s")))], deferred=True)]),
+        ], flavour=("Opt" if mac == "try_join" else "Res") if mac.startswith("try") else None), anyof=(mac == "try_join_async"))
+        pro = "let nm = 3000i32;\n" if not mac.startswith("try") else ("let nm = Some(3000i32);\n" if mac == "try_join" else "let nm = Ok::<i32, i32>(3000);\n")
+        if is_async:
+            rb = pro + "let x = futures::executor::block_on(%s);\nformat!(\"{} outer={:?}\", x, nm)" % ref
+            mb = pro + "let x = futures::executor::block_on(via!(nm));\nformat!(\"{:?} outer={:?}\", x, nm)"
+        else:
+            rb = pro + "let x = %s;\nformat!(\"{:?} outer={:?}\", x, nm)" % ref
+            mb = pro + "let x = via!(nm);\nformat!(\"{:?} outer={:?}\", x, nm)"
+        progs.append(e2.Prog("hygiene/%s" % mac, rb, mb, [[0]], "Proj" if mac == "join_spawn" else ("TryAsync" if is_async else "Full"), pre=tpl, meta={"macro": mac, "dsl": tpl + " via!(nm)", "ref": ref}))
     fr = e2.run_family("c12", progs, extra_header=fp.HEADER)
     judge_family(rep, fr)
     rep.set("rule", "depth profiles n<=3,d<=3 (some branch with >= 2 steps) x EVERY non-empty subset of named branches (let / let mut alternating) x 8 macro kinds; EVERY capture of every (branch, step>=1) snapshots ALL visible names; oracle: the macro result equals the reference's (which is the result without let) and every snapshot equals the reference's 'latest completed step value of the named branch, still wrapped in try macros', also after that branch finished")
     sample_family(rep, progs, fr)
+
+
+def handler_expr_programs():
+    """handler operands whose evaluation is itself visible: evaluated exactly once per macro evaluation, whatever fails
+    (compared per trace key, i.e. the count is judged, not the position relative to the steps)"""
+    from . import fam_profiles as fp
+
+    progs = []
+    for ds in fp.profiles(2, 2):
+        for mac in ["join", "try_join", "join_spawn", "try_join_spawn", "join_async", "try_join_async", "join_async_spawn", "try_join_async_spawn"]:
+            is_try = mac.startswith("try")
+            for hk in (("map", "and_then") if is_try else ("then",)):
+                p = fp.build(mac, ds, flavour="Res" if is_try else None, handler=hk, hexpr_ev=True)
+                sub = fp.fail_slots(ds) if is_try else ()
+                cmp = "TryAsync" if (is_try and "async" in mac) else "Proj"
+                progs.append(fp.to_prog("hexpr/%s/%s/%s" % (mac, fp.pname(ds), hk), p, [[0]] if is_try else fp.offset_rows(), sub=sub, cmp=cmp))
+    return progs
 
 
 @check("C13", "exploration")
@@ -705,6 +751,7 @@ def c13(tier, rep):
                         sub = fp.fail_slots(ds) if is_try else ()
                         rows = [[0]] if is_try else fp.offset_rows()
                         progs.append(fp.to_prog("%s/%s/%s/%s@%d" % (mac, fl, fp.pname(ds), hk, hpos), p, rows, sub=sub))
+    progs += handler_expr_programs()
     fr = e2.run_family("c13", progs, extra_header=fp.HEADER)
     judge_family(rep, fr)
     exe = e1.build()
@@ -788,6 +835,9 @@ def c10(tier, rep):
     cp, _ = fam_captures.chain_programs(tier)
     fr3 = e2.run_family("c11chains", cp)
     judge_family(rep, fr3)
+    hp = handler_expr_programs()
+    fr4 = e2.run_family("c10hexpr", hp, extra_header=fp.HEADER)
+    judge_family(rep, fr4)
     rep.set("rule", "E1: EVERY chain over the 70 operator instances up to length %d (plain, block and closure operands; + a second branch with let, deferred steps, a capture and a handler) in 8 configs, each user operand a unique marker: every marker occurs exactly once in the expansion's token stream; E2: depth profiles over a move-only, non-Clone, drop-logging token in all 12 macros with every failure subset (event multiset per branch, created = dropped, dropped-id multiset equal the reference: nothing cloned, leaked or dropped twice) and all typed chains of length <= 2 (callbacks invoked exactly as often, with the same arguments, as the documented method invokes them), plus the capture-dense chain family of C11 (every block operand evaluated and every captured callable used exactly once)" % L)
     sample_family(rep, tp, fr)
 
